@@ -171,3 +171,30 @@ def run_case_related(job):
     case["routcome"] = ro
     case["rel"] = rel
     return case
+
+
+def run_case_subnet(job):
+    """run the net, cut out the supplied region with toolbox.select_subnet and run that"""
+    import pandapipes as pp
+    import pandapipes.toolbox as tb
+    try:
+        net = netio.build(job["an"], fluid=job.get("fluid", "water"), params=job.get("params"))
+    except Exception as e:  # noqa
+        return {"id": job["id"], "skip": "build:%s" % type(e).__name__}
+    opts = dict(job.get("opts") or {})
+    outcome = run_pipeflow(net, opts)
+    case = {"id": job["id"], "outcome": outcome, "oclass": oclass(outcome), "check": job.get("check", []),
+            "mode": opts.get("mode", "hydraulics"), "net": netio.project(net), "converged": bool(net.get("converged", False)),
+            "ambient": netio.limbs(293.15, netio.TSCALE)}
+    if outcome != "returned":
+        return case
+    supplied = [int(j) for j in net.res_junction.index[net.res_junction.p_bar.notnull().values]]
+    try:
+        sub = tb.select_subnet(net, supplied)
+        so = run_pipeflow(sub, opts)
+        case["snet"] = netio.project(sub)
+        case["soutcome"], case["soclass"] = so, oclass(so)
+    except Exception as e:  # noqa
+        case["snet"] = {"J": [], "E": [], "N": []}
+        case["soutcome"], case["soclass"] = "raised:select:%s" % type(e).__name__, "raised:select:%s" % type(e).__name__
+    return case
